@@ -240,6 +240,9 @@ def invalid_references():
         ('SELECT a, b, sum(c) AS s FROM #t GROUP BY a, b HAVING count(*) > 0 PIVOT BY 1, 4', 'position of the hidden HAVING target'),
         ('SELECT a, b, sum(c) AS s FROM #t GROUP BY a, b PIVOT BY a, a', 'same column twice'),
         ('SELECT a, b, sum(c) AS s FROM #t GROUP BY a, b PIVOT BY 1, 1', 'same position twice'),
+        ('SELECT a, b, sum(c) AS s FROM #t GROUP BY a, b PIVOT BY a, 1', 'name and position of the same column'),
+        ('SELECT a, b, sum(c) AS s FROM #t GROUP BY a, b PIVOT BY 2, b', 'position and name of the same column'),
+        ('SELECT a AS k, b, sum(c) AS s FROM #t GROUP BY k, b PIVOT BY k, 1', 'alias and position of the same column'),
         ('SELECT a, b, sum(c) AS s FROM #t GROUP BY a, b PIVOT BY a, s', 'second column not grouped (aggregate)'),
         ('SELECT a, b, sum(c) AS s FROM #t GROUP BY a, b PIVOT BY a, zz', 'unknown name'),
         ('SELECT a, b, c FROM #t PIVOT BY a, b', 'query does not aggregate'),
@@ -260,7 +263,13 @@ def invalid_references():
             conn.execute(sql).fetchall()
         except Exception as e:  # noqa: BLE001
             bad.append((sql, 'valid reference', f'rejected: {type(e).__name__}: {e}'))
-    return len(cases) + 3, bad
+    for sql in ('SELECT a, b, sum(c) AS s FROM #t GROUP BY a, b PIVOT BY a, 2', 'SELECT a, b, sum(c) AS s FROM #t GROUP BY a, b PIVOT BY 1, b'):
+        try:
+            if conn.execute(sql).fetchall() != conn.execute('SELECT a, b, sum(c) AS s FROM #t GROUP BY a, b PIVOT BY 1, 2').fetchall():
+                bad.append((sql, 'valid reference', 'differs from PIVOT BY 1, 2'))
+        except Exception as e:  # noqa: BLE001
+            bad.append((sql, 'valid reference', f'rejected: {type(e).__name__}: {e}'))
+    return len(cases) + 5, bad
 
 
 def run(tier, rng):
